@@ -129,3 +129,16 @@ func main() {
 	runExpiry(run)
 	run.Finish()
 }
+
+// violate records at most two witnesses per signature (hx keeps 50 violations in all: a flood of
+// one signature must not crowd out the others); further hits are only counted.
+var violSeen = map[string]int{}
+
+func violate(run *hx.Run, sig, desc string, replay []string) {
+	violSeen[sig]++
+	if violSeen[sig] <= 2 {
+		run.Violate(sig, desc, replay)
+	} else {
+		run.Tag("violation-repeats:" + sig)
+	}
+}
